@@ -60,6 +60,7 @@ void RadioTapWriter::write_option(const RadioTap::option& option) {
     }
     const bool is_empty = buffer_.empty();
     RadioTapParser parser(buffer_);
+    const uint8_t* buffer_end = is_empty ? 0 : &*buffer_.begin() + buffer_.size();
     const uint8_t* candidate_ptr = parser.current_option_ptr();
     // Loop while we find lower fields and we're still in the first namespace
     while (parser.has_fields()) {
@@ -67,6 +68,10 @@ void RadioTapWriter::write_option(const RadioTap::option& option) {
             break;
         }
         else if (parser.current_field() == option.option()) {
+            // The stored field may be truncated (header parsed from the wire)
+            if (parser.current_option_ptr() + option.data_size() > buffer_end) {
+                throw malformed_packet();
+            }
             memcpy(const_cast<uint8_t*>(parser.current_option_ptr()),
                    option.data_ptr(), option.data_size());
             return;
@@ -77,6 +82,9 @@ void RadioTapWriter::write_option(const RadioTap::option& option) {
             candidate_ptr = parser.current_option_ptr() + meta.size;
         }
         parser.advance_field();
+    }
+    if (candidate_ptr > buffer_end) {
+        throw malformed_packet();
     }
     size_t offset = is_empty ? 0 : candidate_ptr - &*buffer_.begin();
     const RadioTapParser::FieldMetadata& meta = RadioTapParser::RADIOTAP_METADATA[bit];
